@@ -55,6 +55,14 @@ theorem C15_facts :
                            "c.sendBuf = nil", "c.buffering = false", "return n, err"] ∧
     Facts.dtlcp.txWriteToTail = "return c.writeRecordLocked(recordTypeApplicationData, p)" ∧
     Facts.dtlcp.txWriteCall = "c.writeRecordLocked(recordTypeApplicationData, b)" ∧
+    Facts.dtlcp.rxfShortDropped = true ∧ Facts.dtlcp.rxfTruncatedDropped = true ∧
+    Facts.dtlcp.rxfRecLen = "int(hdr[11])<<8 | int(hdr[12])" ∧ Facts.dtlcp.rxfEpoch = "uint16(hdr[3])<<8 | uint16(hdr[4])" ∧
+    Facts.dtlcp.rxfRecord = "c.rawInputBuf[:recordHeaderLen+recLen]" ∧ Facts.dtlcp.rxfHandsOver = "copy(p, plaintext)" ∧
+    Facts.dtlcp.rxfNonAppDataNotReturned = true ∧ Facts.dtlcp.rxReadSkipsEmptyAppData = true ∧
+    Facts.dtlcp.replayRxReadFromOrder = ["decrypt", "epoch<", "epoch>", "check"] ∧
+    Facts.dtlcp.replayRxReadFromDecryptFail = "discard" ∧
+    Facts.dtlcp.replayRxRecordOrder = ["decrypt", "epoch<", "epoch>", "check"] ∧
+    Facts.dtlcp.recordTypeApplicationData = 23 ∧ Facts.dtlcp.recordTypeAlert = 21 ∧
     Facts.dtlcp.rxDatagramBuf = "maxCiphertext + recordHeaderLen" ∧ Facts.dtlcp.rxDatagramReadsIntoBuf = true ∧
     Facts.dtlcp.rxDatagramBufSize = Facts.dtlcp.maxCiphertext + Facts.dtlcp.recordHeaderLen ∧
     (Facts.dtlcp.suiteTable.filter (fun r => !r.2.2.2.2.2.1)).map (fun r => (r.2.2.1, r.2.2.2.1)) = [(32, 16), (32, 16)] := by
@@ -201,6 +209,70 @@ theorem C15_record_fits_receive_buffer (pmtu : Int) (c : Cipher) (hc : c = .none
   · simp only [recordLen, gcmHere, h13, h8]; omega
   · simp only [recordLen, cbcHere, h13]; omega
 
+/-! ### what the peer reads -/
+
+/-- the replay-window parameters of this tree (regenerated facts; `Gotlcp.Model.Replay`) -/
+def replayHere : Gotlcp.Model.Replay.Params :=
+  { floor := Facts.dtlcp.replayFloor, newCeil := Facts.dtlcp.replayNewCeil,
+    spanCeil := Facts.dtlcp.replaySpanCeil, default := Facts.dtlcp.defaultReplayWindowSize }
+
+/-- **ReadFrom returns exactly that payload.** For every record protection `P` obeying the
+round-trip law (`Laws`; AEAD and CBC alike — `C04_record_roundtrip` is the instance), every
+PMTU, every cipher size parameters, every non-empty payload `b` of at most the maximum
+payload: `WriteTo` hands exactly one datagram to the network, and the receive step of the peer
+— on `ReadFrom` as on the `Read` path — whose read epoch is the sender's and whose window
+has not yet seen that sequence number hands up exactly `b` (and advances its window to it).
+Any `Config.ReplayWindow`, any window contents. -/
+theorem C15_readfrom_identity (P : Protect) (L : Laws P) (pmtu : Int) (c : Cipher) (vers epoch seq : Nat)
+    (hv : vers < 65536) (he : epoch < 65536) (hs : seq < 2 ^ 48)
+    (b : Bytes) (h0 : 0 < b.length) (hb : b.length ≤ maxPayloadSizeForWrite here pmtu c)
+    (cfgWin : Int) (path : RxPath) (st : RxState) (hep : st.readEpoch = epoch) (hw : st.win.right < seq) :
+    ∃ d st', writeToWire here P pmtu c vers epoch seq b = [d] ∧
+      rxStep P Facts.dtlcp.recordHeaderLen replayHere cfgWin path st d = (st', .data b) ∧
+      st'.readEpoch = epoch ∧ st'.win.right = seq := by
+  have h1 := (C15_one_datagram pmtu c b h0 hb).1
+  have hmax := (C15_max_payload_range pmtu c).2
+  have h16 : Facts.dtlcp.maxPlaintext = 16384 := by decide
+  have h13 : Facts.dtlcp.recordHeaderLen = 13 := by decide
+  obtain ⟨st', hstep, e1, e2⟩ := rxStep_genuine P L replayHere cfgWin path st vers epoch seq b hv he hs h0 (by omega) hep hw
+  refine ⟨datagram P ⟨23, vers, epoch, seq⟩ b, st', ?_, ?_, e1, e2⟩
+  · simp only [writeToWire, h1, txDatagrams]
+  · rw [h13]; exact hstep
+
+/-- **A larger `Write` arrives complete and in order.** Whatever is written (any length; it
+is split into records of at most the maximum payload with consecutive sequence numbers), when
+the network delivers every datagram once and in order, the peer's receive steps skip nothing
+and the concatenation of what they hand up is exactly the written bytes. -/
+theorem C15_write_arrives_complete (P : Protect) (L : Laws P) (pmtu : Int) (c : Cipher) (vers epoch seq : Nat)
+    (hv : vers < 65536) (he : epoch < 65536) (data : Bytes)
+    (hs : seq + (writeRecordPieces here pmtu c data).length ≤ 2 ^ 48)
+    (cfgWin : Int) (path : RxPath) (st : RxState) (hep : st.readEpoch = epoch) (hw : st.win.right < seq) :
+    let outs := (rxRun P Facts.dtlcp.recordHeaderLen replayHere cfgWin path st
+                  (writeToWire here P pmtu c vers epoch seq data)).2
+    outs = (writeRecordPieces here pmtu c data).map RxOut.data ∧ received outs = data := by
+  have h13 : Facts.dtlcp.recordHeaderLen = 13 := by decide
+  have hp : ∀ p ∈ writeRecordPieces here pmtu c data, 0 < p.length ∧ p.length ≤ 16384 := by
+    intro p hp
+    have := C15_plain_le pmtu c data p hp
+    have e : DtlcpTxSpec.maxPlaintext = 16384 := rfl
+    omega
+  have h := rxRun_pieces P L replayHere cfgWin path vers epoch hv he _ hp seq st hs hep hw
+  simp only [writeToWire, h13]
+  refine ⟨h, ?_⟩
+  rw [h, received_data]
+  exact C15_write_split_concat pmtu c data
+
+/-- on the wire a datagram is the 13-byte header plus what `encrypt` produced; when
+`encrypt` produces what the size model says, its length is `recordLen` (so `C15_app_fits`
+speaks about these very bytes) -/
+theorem C15_wire_datagram_length (P : Protect) (c : Cipher) (id : RecId) (p : Bytes)
+    (hlen : (P.protect id p).length + here.recordHeaderLen = recordLen here c p.length) :
+    (datagram P id p).length = recordLen here c p.length := by
+  have h13 : here.recordHeaderLen = 13 := by decide
+  unfold datagram recordHeader
+  simp [beBytes_length]
+  omega
+
 /-- with the model of the wire format written from the standard: same sizes -/
 theorem C15_wire_len_matches_spec (n : Nat) :
     recordLen here .none n = DtlcpTxSpec.wireLen .none n ∧
@@ -244,6 +316,22 @@ example : rawBudget here 1400 gcmHere = 1363 ∧ maxPayloadSizeForWrite here 140
 /-- below the smallest workable PMTU the clamp to 1 cannot fit (GCM: 13+8+1+16 = 38 > 30) -/
 example : rawBudget here 30 gcmHere = -7 ∧ maxPayloadSizeForWrite here 30 gcmHere = 1 ∧ recordLen here gcmHere 1 = 38 := by
   decide
+
+/-- the hypotheses of `C15_readfrom_identity` / `C15_write_arrives_complete` are jointly
+satisfiable: the trivial protection (no cipher, epoch 0) obeys `Laws`; 10 bytes at PMTU 17
+(maximum payload 4) travel as three datagrams and are read back as 4+4+2 bytes -/
+example : Laws ⟨fun _ p => p, fun _ b => some b⟩ :=
+  ⟨fun _ _ => rfl, fun _ p h => by simp only []; omega⟩
+
+example :
+    let P : Protect := ⟨fun _ p => p, fun _ b => some b⟩
+    let data : Bytes := [1, 2, 3, 4, 5, 6, 7, 8, 9, 10]
+    let st : RxState := ⟨0, Gotlcp.Model.Replay.newFromConfig replayHere 0⟩
+    (writeToWire here P 17 .none 257 0 5 data).map List.length = [17, 17, 15] ∧
+    received (rxRun P 13 replayHere 0 .readFrom st (writeToWire here P 17 .none 257 0 5 data)).2 = data ∧
+    -- the same datagram twice: the replay window drops the copy
+    (rxRun P 13 replayHere 0 .readFrom st ((writeToWire here P 17 .none 257 0 5 data).take 1 ++
+        (writeToWire here P 17 .none 257 0 5 data).take 1)).2 = [.data [1, 2, 3, 4], .skipped] := by decide
 
 /-- default PMTU, huge PMTU -/
 example : maxPayloadSizeForWrite here 0 .none = 1387 ∧ maxPayloadSizeForWrite here (-7) .none = 1387 ∧
